@@ -137,6 +137,10 @@ def run(tier: str) -> int:
             fb.delta = delta
         else:
             fb = make(forces, delta, T, masses=masses, power=power, seed=int(rs.randint(1, 10**6)))
+        if it % 3 == 0 and masses is not None:
+            # a non-uniform mass-scaling power (per coordinate), set through the documented setter
+            power = rs.choice([0.0, 0.1, 0.5, 1.0], size=(n, 3))
+            fb.masses_scaling_power = power
         g = ScriptedGenerator(3)
         fb._rng = g
         # plan the rounds with TLC's table: up to 3 rounds, the last one must be accepted everywhere
@@ -176,7 +180,7 @@ def run(tier: str) -> int:
             first = False
         pos0 = fb.atoms.get_positions()
         rep.count(("lattice", it), nontrivial=len(rounds) > 1)
-        ctx = {"k": kk.tolist(), "rounds": [(z.tolist(), u.tolist()) for _, z, u in rounds], "power": power}
+        ctx = {"k": kk.tolist(), "rounds": [(z.tolist(), u.tolist()) for _, z, u in rounds], "power": np.asarray(power).tolist()}
         try:
             fb.step()
         except Exception as ex:  # noqa: BLE001
